@@ -21,6 +21,7 @@ type ltsLogEntry struct {
 	a    int64
 	n    int
 	bad  bool // the call failed (injected fault, or an invalid position)
+	eof0 bool // the call returned 0, io.EOF because the source is truncated here (not the real end)
 }
 
 type ltsLog struct {
@@ -44,6 +45,16 @@ type tracedReader struct {
 	armed             bool
 	calls             int
 	failFrom, failLen int
+	partial           bool  // a failing Read first delivers half of what was asked for, together with the error
+	truncAt           int64 // once armed: the source ends here (reads at or beyond report io.EOF); < 0: not truncated
+	noTrunc           bool  // truncAt is unset (zero value guard)
+}
+
+func (t *tracedReader) limit() int64 {
+	if t.armed && !t.noTrunc && t.truncAt >= 0 && t.truncAt < int64(len(t.data)) {
+		return t.truncAt
+	}
+	return int64(len(t.data))
 }
 
 var errC02Injected = errors.New("injected fault of the underlying reader")
@@ -59,28 +70,43 @@ func (t *tracedReader) faulty() bool {
 }
 
 func (t *tracedReader) Read(p []byte) (int, error) {
+	lim := t.limit()
 	if t.faulty() {
-		t.log.add(ltsLogEntry{'R', t.pos, len(p), true})
-		return 0, errC02Injected
+		t.log.add(ltsLogEntry{'R', t.pos, len(p), true, false})
+		k := 0
+		if t.partial && len(p) > 1 && t.pos < lim {
+			k = len(p) / 2
+			if int64(k) > lim-t.pos {
+				k = int(lim - t.pos)
+			}
+			copy(p, t.data[t.pos:t.pos+int64(k)])
+			t.pos += int64(k)
+		}
+		return k, errC02Injected
 	}
-	t.log.add(ltsLogEntry{'R', t.pos, len(p), false})
-	if t.pos >= int64(len(t.data)) {
+	if t.pos >= lim {
+		cut := lim < int64(len(t.data))
+		t.log.add(ltsLogEntry{'R', t.pos, len(p), cut, cut})
 		return 0, io.EOF
 	}
-	n := copy(p, t.data[t.pos:])
+	t.log.add(ltsLogEntry{'R', t.pos, len(p), false, false})
+	n := copy(p, t.data[t.pos:lim])
 	t.pos += int64(n)
 	return n, nil
 }
 
 func (t *tracedReader) ReadByte() (byte, error) {
+	lim := t.limit()
 	if t.faulty() {
-		t.log.add(ltsLogEntry{'R', t.pos, 1, true})
+		t.log.add(ltsLogEntry{'R', t.pos, 1, true, false})
 		return 0, errC02Injected
 	}
-	t.log.add(ltsLogEntry{'R', t.pos, 1, false})
-	if t.pos >= int64(len(t.data)) {
+	if t.pos >= lim {
+		cut := lim < int64(len(t.data))
+		t.log.add(ltsLogEntry{'R', t.pos, 1, cut, cut})
 		return 0, io.EOF
 	}
+	t.log.add(ltsLogEntry{'R', t.pos, 1, false, false})
 	b := t.data[t.pos]
 	t.pos++
 	return b, nil
@@ -91,14 +117,14 @@ func (t *tracedReader) Seek(off int64, whence int) (int64, error) {
 		return 0, errors.New("tracedReader: unsupported whence")
 	}
 	if off < 0 {
-		t.log.add(ltsLogEntry{'S', off, 0, true})
+		t.log.add(ltsLogEntry{'S', off, 0, true, false})
 		return 0, errors.New("tracedReader: negative position")
 	}
 	if t.faulty() {
-		t.log.add(ltsLogEntry{'S', off, 0, true})
+		t.log.add(ltsLogEntry{'S', off, 0, true, false})
 		return 0, errC02Injected
 	}
-	t.log.add(ltsLogEntry{'S', off, 0, false})
+	t.log.add(ltsLogEntry{'S', off, 0, false, false})
 	t.pos = off
 	return off, nil
 }
@@ -130,7 +156,7 @@ func (x *ltsTrace) idx(file int64) int {
 
 func (x *ltsTrace) mark() {
 	x.script = append(x.script, fmt.Sprintf("m%d", x.nmark))
-	x.log.add(ltsLogEntry{'M', int64(x.nmark), 0, false})
+	x.log.add(ltsLogEntry{'M', int64(x.nmark), 0, false, false})
 	x.nmark++
 }
 
@@ -364,4 +390,57 @@ func runC02Fault(c *ctx, f *c02File, ops []c02Op, rd int, procs int) {
 		return
 	}
 	lts.finish(in)
+}
+
+// outcomes classifies every load attempt after NewReader's, in program order (meaningful for rd = 1):
+// 'o' no fault, 'x' the load failed (an error, an error after partial data, a truncation inside the member),
+// 'e' the truncated source reported a clean end of input at the member start.
+func (x *ltsTrace) outcomes() (string, error) {
+	var out []byte
+	cur := -1
+	var curOff int64
+	pendingSeek := false
+	nread := 0
+	dropFirst := false
+	for _, en := range x.log.entries {
+		switch en.kind {
+		case 'S':
+			out = append(out, 'o')
+			cur, curOff, pendingSeek, nread = len(out)-1, en.a, true, 0
+			if en.bad {
+				out[cur] = 'x'
+				pendingSeek = false
+			}
+		case 'R':
+			if en.n == 0 {
+				continue
+			}
+			if pendingSeek && curOff == en.a {
+				pendingSeek = false
+			} else if x.idx(en.a) >= 0 {
+				if len(out) == 0 {
+					if en.a != 0 {
+						return "", fmt.Errorf("first load is not the one of NewReader: %d", en.a)
+					}
+					dropFirst = true
+				}
+				out = append(out, 'o')
+				cur, curOff, pendingSeek, nread = len(out)-1, en.a, false, 0
+			}
+			if cur < 0 {
+				return "", fmt.Errorf("read at %d outside any load", en.a)
+			}
+			switch {
+			case en.eof0 && nread == 0 && en.a == curOff:
+				out[cur] = 'e'
+			case (en.eof0 || en.bad) && out[cur] == 'o':
+				out[cur] = 'x'
+			}
+			nread++
+		}
+	}
+	if dropFirst {
+		out = out[1:]
+	}
+	return string(out), nil
 }
